@@ -90,7 +90,7 @@ def _run_roundtrip(b, month, pin=None):
 
 
 def _goals(t, jd, t2):
-    exact = rv(JD_1901) + z3.ToReal(t.n) + z3.ToReal(t.sod) / 86400
+    exact = rv(JD_1901) + z3.ToReal(t.tot) / 86400
     ulp = rv(Fraction(1, 2 ** 31))
     return {"jd-accuracy": z3.And(jd.t - exact <= ulp, exact - jd.t <= ulp), "roundtrip": (t == t2).t}
 
